@@ -38,6 +38,15 @@ def gen_re(rng, depth, words):
         if k < 0.95:
             return ('e',)
         return ('c', rng.choice(ALPHA))
+    if r < 0.36:
+        # explicit anchors at both ends of a top-level alternation: `^a|b$`, `^a$|b|^c$` (a pattern that "looks anchored" and is not)
+        x, y = gen_re(rng, depth - 1, words), gen_re(rng, depth - 1, words)
+        mid = [gen_re(rng, 0, words)] if rng.random() < 0.4 else []
+        alts = [('&', ('^',), x)] + mid + [('&', y, ('$',))]
+        out = alts[0]
+        for a_ in alts[1:]:
+            out = ('|', out, a_)
+        return out
     if r < 0.5:
         return ('&', gen_re(rng, depth - 1, words), gen_re(rng, depth - 1, words))
     if r < 0.68:
